@@ -228,6 +228,24 @@ func (t *tr) evCall(c *ast.CallExpr) []Term {
 			}
 		}
 	}
+	// `flag abstract_total k1,k2`: like abstract_calls, but the callee is assumed not to panic (an assumption
+	// listed with the unit: its own contract proves it under a precondition this caller does not establish)
+	if t.u.Contract != nil && t.u.Contract.Flags["abstract_total"] != "" {
+		for _, k := range strings.Split(t.u.Contract.Flags["abstract_total"], ",") {
+			if strings.TrimSpace(k) == ct.key {
+				abs := *con
+				abs.MayPanic = false
+				abs.Clauses = nil
+				for _, cl := range con.Clauses {
+					if cl.Kind == "modifies" || cl.Kind == "preserves" {
+						abs.Clauses = append(abs.Clauses, cl)
+					}
+				}
+				con = &abs
+				t.V.note("flag abstract_total on " + t.u.Key + ": " + ct.key + " over-approximated (any result) and assumed not to panic")
+			}
+		}
+	}
 	// receiver
 	var recvTerm Term
 	var writeback func()
@@ -1331,7 +1349,7 @@ func (t *tr) deferStmt(x *ast.DeferStmt) {
 			return
 		}
 		d := &deferRec{call: x.Call, pos: x.Pos(), inLoop: true}
-		d.flag = t.newVar(fmt.Sprintf("deferred$%d", len(t.defers)+1), SBool, types.Typ[types.Bool], false)
+		d.flag = t.newVar(fmt.Sprintf("deferred$%s%d", t.deferPrefix, len(t.defers)+1), SBool, types.Typ[types.Bool], false)
 		t.assign(d.flag, tTrue)
 		t.defers = append(t.defers, d)
 		return
@@ -1343,7 +1361,7 @@ func (t *tr) deferStmt(x *ast.DeferStmt) {
 		// with the environment of the defer point (see runDefers).
 		d.args = nil
 	}
-	d.flag = t.newVar(fmt.Sprintf("deferred$%d", len(t.defers)+1), SBool, types.Typ[types.Bool], false)
+	d.flag = t.newVar(fmt.Sprintf("deferred$%s%d", t.deferPrefix, len(t.defers)+1), SBool, types.Typ[types.Bool], false)
 	d.env = t.cur.Env.clone()
 	// receiver and arguments of a deferred (non-literal) call are evaluated now: snapshot the locals they mention
 	if _, isLit := ast.Unparen(x.Call.Fun).(*ast.FuncLit); !isLit {
@@ -1409,11 +1427,57 @@ func (t *tr) inlineLit(lit *ast.FuncLit, args []ast.Expr, pos token.Pos) []Term 
 	}
 	uSig := *t.u
 	t.u.Sig = sig
+	// deferred calls of the literal itself run when the literal returns or panics, not at the unit's exit
+	savedDefers, savedPrefix := t.defers, t.deferPrefix
+	t.defers = nil
+	t.litInst++
+	t.deferPrefix = fmt.Sprintf("L%d$", t.litInst)
+	panics0 := len(t.panics)
+	{
+		nd := 0
+		ast.Inspect(lit.Body, func(n ast.Node) bool {
+			switch n.(type) {
+			case *ast.FuncLit:
+				return false
+			case *ast.DeferStmt:
+				nd++
+				fv := t.newVar(fmt.Sprintf("deferred$%s%d", t.deferPrefix, nd), SBool, types.Typ[types.Bool], false)
+				t.assign(fv, tFalse)
+			}
+			return true
+		})
+	}
 	t.stmts(lit.Body.List)
 	t.u.Sig = savedSig
 	_ = uSig
 	ends := append([]*Block{t.cur}, t.returns...)
 	t.cur = t.join(ends...)
+	litDefers := t.defers
+	runLitDefers := func() {
+		for i := len(litDefers) - 1; i >= 0 && t.cur != nil; i-- {
+			d := litDefers[i]
+			bt, bf := t.branch(t.read(d.flag))
+			t.cur = bt
+			t.runDefer(d)
+			t.cur = t.join(t.cur, bf)
+		}
+	}
+	if len(litDefers) > 0 {
+		t.defers = nil
+		runLitDefers()
+		if len(t.panics) > panics0 {
+			raised := append([]*Block(nil), t.panics[panics0:]...)
+			t.panics = t.panics[:panics0]
+			save := t.cur
+			t.cur = t.join(raised...)
+			runLitDefers()
+			if t.cur != nil {
+				t.panics = append(t.panics, t.cur)
+			}
+			t.cur = save
+		}
+	}
+	t.defers, t.deferPrefix = savedDefers, savedPrefix
 	var res []Term
 	if t.cur != nil {
 		for _, rv := range t.results {
